@@ -101,7 +101,7 @@ def run(ctx):
             elif not skipping:
                 lines.append(("kv", args[0], t1 if args[1] == 1 else t2))
         files.append(lines)
-    for _ in range(40 if ctx.quick else 400):
+    for _ in range(40 if ctx.quick else 3000):
         lines = []
         secs = rng.sample([1, 2, 3], rng.randint(1, 3))
         if rng.random() < 0.5:
@@ -198,7 +198,7 @@ def run(ctx):
     # ---- robustness: any bytes
     rfiles = []
     base = [open(ctx.path("f%d.ini" % i), "rb").read() for i in range(min(len(files), 30))]
-    for i in range(150 if ctx.quick else 2000):
+    for i in range(150 if ctx.quick else 20000):
         r = rng.random()
         if r < 0.25:
             data = bytes(rng.getrandbits(8) for _ in range(rng.choice([0, 1, 10, 100, 1500, 5000])))
